@@ -18,7 +18,6 @@ import (
 	"os"
 	"runtime"
 	"sort"
-	"strings"
 	"sync"
 
 	"github.com/iotaledger/hive.go/serializer/v2/serix"
@@ -85,8 +84,9 @@ func (s *stats) note(key, text string) {
 }
 
 type agg struct {
-	mu sync.Mutex
-	c  *vf.Ctx
+	mu    sync.Mutex
+	c     *vf.Ctx
+	noted map[string]bool
 }
 
 func (a *agg) merge(st *stats) {
@@ -104,7 +104,13 @@ func (a *agg) merge(st *stats) {
 		a.c.Violation(v.fp, v.what, v.rec)
 	}
 	for _, n := range st.notes {
-		a.c.Note(n)
+		if a.noted == nil {
+			a.noted = map[string]bool{}
+		}
+		if !a.noted[n] && len(a.noted) < 12 {
+			a.noted[n] = true
+			a.c.Note(n)
+		}
 	}
 	for _, s := range st.samples {
 		if a.c.WantSample() {
@@ -481,11 +487,6 @@ func reverseOne(st *stats, u *sergen.Universe, si int, s *sergen.Shape, vi int, 
 	if rule == "" {
 		rule = "none"
 	}
-	if hasNonByteArray(s, 0) {
-		// class suffix: the shape contains an array of non-byte elements (whose decoder does not
-		// check the serialized element count against the array length on the pinned tree)
-		rule += "@shape-with-array-of-non-byte"
-	}
 	if n < 0 || n > len(m.b) {
 		what := fmt.Sprintf("validated Decode accepted a %s mutant and reported %d bytes read of %d", m.kind, n, len(m.b))
 		st.violation("reverse:bytes-read-out-of-range", what, rec(what, nil))
@@ -514,33 +515,6 @@ func reverseOne(st *stats, u *sergen.Universe, si int, s *sergen.Shape, vi int, 
 		what := fmt.Sprintf("validated Decode accepted a %s mutant (consumed %d of %d bytes) that is not canonical: re-encoding gives %d bytes, first difference at offset %d", m.kind, n, len(m.b), len(b2), firstDiff(b2, m.b[:n]))
 		st.violation("reverse:non-canonical-accepted:"+m.kind+":"+rule, what, rec(what, b2))
 	}
-}
-
-func hasNonByteArray(s *sergen.Shape, depth int) bool {
-	if depth > 10 {
-		return false
-	}
-	switch s.Kind {
-	case sergen.Array:
-		return true
-	case sergen.Slice, sergen.Ptr:
-		return hasNonByteArray(s.Elem, depth+1)
-	case sergen.Map:
-		return hasNonByteArray(s.Key, depth+1) || hasNonByteArray(s.Elem, depth+1)
-	case sergen.Struct:
-		for _, f := range s.Fields {
-			if hasNonByteArray(f.S, depth+1) {
-				return true
-			}
-		}
-	case sergen.Iface:
-		for _, im := range *s.Impls {
-			if hasNonByteArray(im, depth+1) {
-				return true
-			}
-		}
-	}
-	return false
 }
 
 func allocSafe(s *sergen.Shape, depth int) bool {
@@ -651,7 +625,7 @@ func run(c *vf.Ctx) {
 	c.SetRule("forward: one evaluation = Encode output of an accepted (shape, value, validation) triple compared byte for byte with the harness's reference encoder (schema-driven, standard library only); reverse: valid encodings (validation on) are mutated at the offsets the reference encoder marks as length prefixes, element counts, optional markers, type codes, bools, element boundaries (swap / duplicate / drop / reverse), plus tails, truncations and random bytes; one evaluation = a candidate that validated Decode accepted, re-encoded and compared with the consumed prefix. distinct_nontrivial = distinct (shape hash, mutation class, array-rule class) triples among *accepted mutants that differ from the original encoding*; shapes: seeded dynamic universes (run-time built types on a fresh API) + the static universe")
 	a := &agg{c: c}
 	workers := runtime.NumCPU()
-	nUni := c.Pick(300, 6000)
+	nUni := c.Pick(600, 12000)
 	nVals := c.Pick(30, 30)
 	base := c.Rand("c03-universes").Int63()
 	{
@@ -682,13 +656,18 @@ func run(c *vf.Ctx) {
 		a.merge(st)
 	})
 	c.SetExhaustive(false)
-	c.Require("reference_comparisons", c.Pick(15000, 300000))
-	c.Require("reverse_candidates", c.Pick(100000, 2000000))
-	c.Require("reverse_accepted_nontrivial", c.Pick(2000, 40000))
-	c.Require("accepted_mutants/rule=map", c.Pick(20, 400))
-	c.Require("accepted_mutants/rule=lexical", c.Pick(20, 400))
-	c.Require("accepted_mutants/rule=nodup", c.Pick(20, 400))
-	c.Require("accepted_mutants/rule=bounds", c.Pick(20, 400))
+	c.Require("reference_comparisons", c.Pick(30000, 600000))
+	c.Require("reverse_candidates", c.Pick(300000, 6000000))
+	c.Require("reverse_accepted_nontrivial", c.Pick(40000, 800000))
+	c.Require("nontrivial", c.Pick(2000, 30000))
+	for _, r := range []string{"map", "lexical", "nodup", "bounds", "plain"} {
+		c.Require("accepted_mutants/rule="+r, c.Pick(500, 10000))
+	}
+	c.Require("accepted_mutants/rule=mustoccur", c.Pick(100, 2000))
+	c.Require("accepted_mutants/rule=oneofeach", c.Pick(40, 800))
+	for _, k := range []string{"count-value", "prefix-value", "optional-marker", "bool-byte", "element-swap", "element-duplicate", "element-drop", "type-code"} {
+		c.Require("accepted_mutants/kind="+k, c.Pick(100, 2000))
+	}
 	c.Assume("the reference encoder implements the documented layout (it is written from the layout description in the property statement and DESIGN.md, imports only the standard library, and is validated by the fact that it agrees with Encode on every shape except the ones reported)")
 }
 
@@ -736,7 +715,7 @@ func ruleFromFP(c *vf.Ctx) string {
 	}
 	for i := len(w.Fingerprint) - 1; i >= 0; i-- {
 		if w.Fingerprint[i] == ':' {
-			r := strings.TrimSuffix(w.Fingerprint[i+1:], "@shape-with-array-of-non-byte")
+			r := w.Fingerprint[i+1:]
 			if r == "none" {
 				return ""
 			}
